@@ -253,6 +253,17 @@ end occ_source
 -- `Occ::get` on the table of `Occ::new`, k = 3, symbol 3: the column 0,1,2,2,2,2 of the model example above
 example : (List.range 6).map (fun r => Gen.SrcOcc.get (fun s c => s.count c) [[0, 0], [1, 2], [0, 0], [0, 2]] 3
     [1, 3, 3, 1, 2, 0] r 3) = [0, 1, 2, 2, 2, 2].map Rs.Res.ok := by decide
+-- sampling rate 65 (above the pinned look-ahead threshold), text of length 130, two checkpoints: backward count from the high
+-- checkpoint (row 64), early exit on equal checkpoints (absent symbol 3), forward counts (rows 70 and 10); the values are
+-- the specification's, so the example survives a retuned threshold
+example :
+    let bwt := List.replicate 63 1 ++ List.replicate 67 2
+    let tbl := occTable bwt 65 [1, 2, 3] 4
+    Gen.SrcOcc.get (fun s c => s.count c) tbl 65 bwt 64 2 = Rs.Res.ok 2 ∧
+    Gen.SrcOcc.get (fun s c => s.count c) tbl 65 bwt 64 3 = Rs.Res.ok 0 ∧
+    Gen.SrcOcc.get (fun s c => s.count c) tbl 65 bwt 70 2 = Rs.Res.ok 8 ∧
+    Gen.SrcOcc.get (fun s c => s.count c) tbl 65 bwt 10 1 = Rs.Res.ok 11 := by
+  decide +kernel
 -- a symbol without a column / a row outside the BWT is refused by the Rust code: the translation panics
 example : Gen.SrcOcc.get (fun s c => s.count c) [[0, 0], [1, 2], [0, 0], [0, 2]] 3 [1, 3, 3, 1, 2, 0] 2 4 = Rs.Res.panic := by
   decide
